@@ -262,7 +262,7 @@ func TestVerifC08(t *testing.T) {
 	res := vrep.New("C08", p)
 	defer res.Guard()
 	base, _ := vrep.Scratch("c08")
-	res.Rule = "E1: all schedules of 2 (thorough: 3) uploader processes at file-system/HTTP-call granularity with kills and server answers {200,400,500,none} as choices, within the stated (preemption, kill, answer-deviation) bounds, each followed by 3 sequential runs against a faithful server; classes = distinct (answers, kills, marker, staged, acknowledgements) outcomes"
+	res.Rule = "E1: all schedules of 2 (thorough: 3) uploader processes at file-system/HTTP-call granularity with kills and server answers {200,400,500,none} as choices, within the stated (preemption, kill, answer-deviation) bounds, each followed by 3 sequential runs against a faithful server; classes = distinct (answers, kills, marker, staged, acknowledgements) outcomes; E3: one uploader x every status 100-599 and a silent server (the seam answers with the client's timeout if the request carries a deadline, records it otherwise), then a second run; foreign *.json files next to a ready report"
 	res.Assumptions = []string{"uploader processes are emulated by threads with separate uploader values on one real directory", "a kill stops a process between two hooked calls; deferred clean-up does not run", "no answer = the server did not process the request"}
 	scns := []struct {
 		name   string
